@@ -34,6 +34,12 @@ def generate(rng, tier):
         shape = [rng.randint(2, 5) for _ in range(nd)]
         ecs, shape = E.gen_layout(rng, nd, shape)
         chain = E.gen_chain(rng, shape, rng.choice([1, 1, 2, 3]))
+        if nd >= 2 and rng.random() < 0.08:
+            # a meshed SkyCoord table on two long axes under a chain of range-only slices
+            a0, a1 = sorted(rng.sample(range(nd), 2))
+            shape[a0] = shape[a1] = 5
+            ecs = [e for e in ecs if e["kind"] not in ("wcs", "sky2mesh", "sky2d")][:2] + [{"kind": "sky2mesh", "axes": [a0, a1]}]
+            chain = E.gen_chain(rng, shape, rng.choice([2, 3]), pattern="ranges")
         yield {"shape": shape, "fam": rng.choice(FAMILIES), "wseed": rng.randrange(10**6), "ecs": ecs, "chain": chain,
                "fresh": k < n_fresh * 3 and k % 3 == 0 and len(ecs) >= 2}
 
